@@ -226,3 +226,35 @@ Proof.
     rewrite App. cbn [ignore_ops_files]. rewrite Ha, Hg, Hb. reflexivity.
   - apply (suppression_is_file_local cfg A B g oa og ob c q Hr Hp (pairwise_disj_split A g B Hd) Ha Hg Hb Hq).
 Qed.
+
+Lemma ops_files_split A g B o :
+  ignore_ops_files re_ignore kw_ignore (A ++ g :: B) = Some o ->
+  exists oa og ob, ignore_ops_files re_ignore kw_ignore A = Some oa /\
+                   ignore_ops_comments re_ignore kw_ignore g (List.concat (f_comments g)) = Some og /\
+                   ignore_ops_files re_ignore kw_ignore B = Some ob /\ o = (oa ++ og ++ ob)%list.
+Proof.
+  revert o. induction A as [|a r IH]; intros o; cbn [app ignore_ops_files].
+  - destruct (ignore_ops_comments re_ignore kw_ignore g (List.concat (f_comments g))) as [og|]; [|discriminate].
+    destruct (ignore_ops_files re_ignore kw_ignore B) as [ob|]; [|discriminate]. intros H. injection H as <-.
+    exists [], og, ob. repeat split.
+  - destruct (ignore_ops_comments re_ignore kw_ignore a (List.concat (f_comments a))) as [oa0|]; [|discriminate].
+    destruct (ignore_ops_files re_ignore kw_ignore (r ++ g :: B)) as [o'|] eqn:E; [|discriminate]. intros H. injection H as <-.
+    destruct (IH o' eq_refl) as (oa & og & ob & Ha & Hg & Hb & ->). rewrite Ha.
+    exists (oa0 ++ oa)%list, og, ob. repeat split; [exact Hg|exact Hb|rewrite app_assoc; reflexivity].
+Qed.
+
+(* a position inside the range of a kept file g: the package's suppression there is g's own *)
+Theorem decided_by_own_file cfg p g ops q :
+  x_ranges_ok cfg p = true -> x_pos_ok cfg p = true -> x_ignore_ops cfg p = Some ops -> In g (kept_files cfg p) -> in_span g q ->
+  exists og, ignore_ops_comments re_ignore kw_ignore g (List.concat (f_comments g)) = Some og /\
+    forall c, x_suppressed ops c q =
+              x_suppressed (match exclude_checks cfg with [] => og | cs => OpGlobal cs :: og end) c q.
+Proof.
+  intros Hr Hp Ho Hg Hq. destruct (in_split g (kept_files cfg p) Hg) as (A & B & Hk).
+  assert (Ho' := Ho). unfold x_ignore_ops, ignore_ops in Ho'.
+  change (filter (fun f0 => negb (should_skip cfg (f_name f0))) (p_files p)) with (kept_files cfg p) in Ho'. rewrite Hk in Ho'.
+  destruct (ignore_ops_files re_ignore kw_ignore (A ++ g :: B)) as [o|] eqn:E; [|discriminate].
+  destruct (ops_files_split A g B o E) as (oa & og & ob & Ha & Hgg & Hb & ->). exists og. split; [exact Hgg|].
+  intros c. injection Ho' as <-.
+  destruct (package_suppression_is_file_local cfg p A g B oa og ob c q Hr Hp Hk Ha Hgg Hb Hq) as [_ H]. exact H.
+Qed.
